@@ -246,3 +246,14 @@ func init() {
 		}
 	}
 }
+
+func init() {
+	exploreExtra["flagloop"] = func(p *Prog) {
+		c := NewCtx(p, "X", "quick")
+		c.quiet = true
+		ruleFlagLoop(c, "R-FLAGLOOP", p.ModulePkgs())
+		for _, o := range c.Obls {
+			fmt.Printf("%s\t%s\t%v\t%s\n", o.Pos, o.Instance, o.OK, short(o.Msg, 200))
+		}
+	}
+}
